@@ -322,3 +322,45 @@ func TestC06Exhaustive(t *testing.T) {
 		}
 	}
 }
+
+// TestC06HighCounters: wire conformance of hc's sealing when the per-direction counter is large
+// (set through the verif hook): the reference opener at the same counter must open the frames.
+func TestC06HighCounters(t *testing.T) {
+	var secret [32]byte
+	for i := range secret {
+		secret[i] = byte(i*3 + 1)
+	}
+	ka2c, kc2a := refctl.SessionKeys(secret[:])
+	for _, start := range []uint64{1<<8 - 1, 1<<16 - 1, 1<<24 - 1, 1<<32 - 2, 1 << 32, 1<<40 + 3, 1<<48 - 1, 1<<56 + 1, 1<<63 - 1, 1<<64 - 4} {
+		for _, server := range []bool{true, false} {
+			var sess hccrypto.Cryptographer
+			key := kc2a
+			if server {
+				sess, _ = hccrypto.NewSecureSessionFromSharedKey(secret)
+				key = ka2c
+			} else {
+				sess, _ = hccrypto.NewSecureClientSessionFromSharedKey(secret)
+			}
+			if !hccrypto.VerifSetCounters(sess, start, start) {
+				fmt.Println("VERIF-INCONCLUSIVE: counter hook does not know the session type")
+				t.Fatal("hook")
+			}
+			payload := filler(2500, uint32(start)) // three frames: the counter advances across the boundary
+			enc, err := sess.Encrypt(bytes.NewReader(payload))
+			if err != nil {
+				t.Fatalf("Encrypt at counter %d: %v", start, err)
+			}
+			wire, _ := ioutil.ReadAll(enc)
+			op := &refctl.Opener{Key: key, Count: start}
+			plain, _, oerr := op.OpenAll(wire)
+			stats.Case(stats.Hash("c06high", start, server), true, []string{"high-counter"}, func() interface{} {
+				return map[string]interface{}{"counter_start": start, "accessory_side": server, "payload": len(payload)}
+			})
+			if oerr != nil || !bytes.Equal(plain, payload) {
+				msg := fmt.Sprintf("frames sealed from counter %d on: reference opener at the same counter fails: %v", start, oerr)
+				stats.Fail("TestC06HighCounters", msg, start)
+				t.Errorf("%s", msg)
+			}
+		}
+	}
+}
